@@ -619,9 +619,158 @@ fn replay_incremental(case: &Value, endian: RunTimeEndian) -> Value {
     finish(&sections, endian)
 }
 
-fn record(_out: &str, _a: &Args) {
-    eprintln!("gvh-unitw: record is not implemented (C11 uses replay of generated scripts)");
-    std::process::exit(2);
+// ---------------------------------------------------------------------------
+// record: random larger unit tables for UnitWriterTrace.tla.  The generator only
+// knows how to call the API (which ids exist); what must come out is the spec's job.
+
+/// (value kind, attribute name under which the reader classifies it)
+/// Form-driven kinds sit under vendor attribute names that the reader does not
+/// reinterpret by name; name-driven kinds sit under their natural name.
+const RANDOM_KINDS: [(&str, &str); 24] = [
+    ("Address", "DW_AT_low_pc"), ("Block", "DW_AT_MIPS_fde"), ("Data1", "DW_AT_MIPS_loop_begin"),
+    ("Data2", "DW_AT_MIPS_tail_loop_begin"), ("Data4", "DW_AT_MIPS_epilog_begin"), ("Data8", "DW_AT_MIPS_loop_unroll_factor"),
+    ("Sdata", "DW_AT_MIPS_software_pipeline_depth"), ("Udata", "DW_AT_MIPS_stride"), ("ImplicitConst", "DW_AT_MIPS_has_inlines"),
+    ("Exprloc", "DW_AT_location"), ("Flag", "DW_AT_external"), ("FlagPresent", "DW_AT_artificial"),
+    ("DebugTypesRef", "DW_AT_signature"), ("StringRef", "DW_AT_MIPS_abstract_name"), ("LineStringRef", "DW_AT_sf_names"),
+    ("String", "DW_AT_src_info"), ("Encoding", "DW_AT_encoding"), ("Language", "DW_AT_language"),
+    ("Accessibility", "DW_AT_accessibility"), ("Inline", "DW_AT_inline"), ("DebugInfoRefSup", "DW_AT_MIPS_clone_origin"),
+    ("Data16", "DW_AT_body_begin"), ("Virtuality", "DW_AT_virtuality"), ("Ordering", "DW_AT_ordering"),
+];
+const TAGS: [&str; 8] = ["DW_TAG_variable", "DW_TAG_structure_type", "DW_TAG_subprogram", "DW_TAG_member",
+    "DW_TAG_pointer_type", "DW_TAG_typedef", "DW_TAG_lexical_block", "DW_TAG_enumeration_type"];
+
+fn random_value(rng: &mut Rng, kind: &str, asz: u64, word: u64) -> Value {
+    let mut v = rng.boundary64();
+    let small = |rng: &mut Rng| -> Vec<u8> {
+        let n = *rng.pick(&[0u64, 1, 2, 5, 127, 128]);
+        (0..n).map(|i| 1 + ((i * 7 + 3) % 250) as u8).collect()
+    };
+    match kind {
+        "Address" => {
+            if asz < 8 { v &= (1u64 << (8 * asz)) - 1; }
+            json!({"k": kind, "v": bv(v, 8)})
+        }
+        "Block" => json!({"k": kind, "b": bytes_json(&small(rng))}),
+        "Exprloc" => json!({"k": kind, "b": bytes_json(&vec![0x96u8; rng.below(4) as usize])}),
+        "Data1" => json!({"k": kind, "v": bv(v & 0xff, 8)}),
+        "Data2" => json!({"k": kind, "v": bv(v & 0xffff, 8)}),
+        "Data4" => json!({"k": kind, "v": bv(v & 0xffff_ffff, 8)}),
+        "Data16" => json!({"k": kind, "v": bv128(((v as u128) << 64) | rng.next() as u128, 16)}),
+        "Flag" => json!({"k": kind, "v": rng.chance(1, 2)}),
+        "FlagPresent" => json!({"k": kind}),
+        "StringRef" | "LineStringRef" | "String" => {
+            let words: [&[u8]; 6] = [b"", b"a", b"int", b"main", b"a_rather_long_identifier_name", b"x"];
+            let w: &[u8] = words[rng.below(words.len() as u64) as usize];
+            json!({"k": kind, "s": bytes_json(w)})
+        }
+        "Encoding" | "Accessibility" | "Inline" | "Virtuality" | "Ordering" => json!({"k": kind, "v": bv(v & 0xff, 8)}),
+        "Language" => json!({"k": kind, "v": bv(v & 0xffff, 8)}),
+        "DebugInfoRefSup" => {
+            if word == 4 { v &= 0xffff_ffff; }
+            json!({"k": kind, "v": bv(v, 8)})
+        }
+        _ => json!({"k": kind, "v": bv(v, 8)}),
+    }
+}
+
+fn random_script(rng: &mut Rng, lo: u64, hi: u64) -> Value {
+    let nunits = rng.range(1, 4) as usize;
+    let total = rng.range(lo, hi) as usize;
+    let mut units = Vec::new();
+    for _ in 0..nunits {
+        units.push(json!({"version": rng.range(2, 5), "format": *rng.pick(&[4u64, 4, 8]), "asz": *rng.pick(&[4u64, 8])}));
+    }
+    let mut calls: Vec<Value> = Vec::new();
+    // per unit: ids 1.. (1 = root); state of each id
+    let mut added: Vec<Vec<usize>> = vec![vec![1]; nunits];
+    let mut reserved_only: Vec<Vec<usize>> = vec![Vec::new(); nunits];
+    let mut next_id: Vec<usize> = vec![2; nunits];
+    for k in 0..total {
+        let u = k * nunits / total;
+        if rng.chance(1, 10) {
+            calls.push(json!({"op": "reserve", "u": u + 1}));
+            reserved_only[u].push(next_id[u]);
+            next_id[u] += 1;
+            continue;
+        }
+        let p = if rng.chance(2, 5) { 1 } else { *rng.pick(&added[u]) };
+        let tag = if p == 1 && rng.chance(1, 6) { "DW_TAG_base_type" } else { *rng.pick(&TAGS) };
+        if !reserved_only[u].is_empty() && rng.chance(1, 3) {
+            let i = rng.below(reserved_only[u].len() as u64) as usize;
+            let e = reserved_only[u].remove(i);
+            calls.push(json!({"op": "add_reserved", "u": u + 1, "e": e, "p": p, "tag": tag}));
+            added[u].push(e);
+        } else {
+            calls.push(json!({"op": "add", "u": u + 1, "p": p, "tag": tag}));
+            added[u].push(next_id[u]);
+            next_id[u] += 1;
+        }
+    }
+    // attributes and references
+    for u in 0..nunits {
+        let asz = units[u]["asz"].as_u64().unwrap();
+        let word = units[u]["format"].as_u64().unwrap();
+        let ids = added[u].clone();
+        for &e in &ids {
+            let n = rng.below(4);
+            for _ in 0..n {
+                let (kind, name) = *rng.pick(&RANDOM_KINDS);
+                calls.push(json!({"op": "set", "u": u + 1, "e": e, "name": name, "val": random_value(rng, kind, asz, word)}));
+            }
+            if e != 1 && rng.chance(1, 3) {
+                let t = *rng.pick(&ids);
+                calls.push(json!({"op": "set", "u": u + 1, "e": e, "name": "DW_AT_type", "val": {"k": "UnitRef", "e": t}}));
+            }
+            if e != 1 && rng.chance(1, 5) {
+                let tu = rng.below(nunits as u64) as usize;
+                let t = *rng.pick(&added[tu]);
+                calls.push(json!({"op": "set", "u": u + 1, "e": e, "name": "DW_AT_abstract_origin",
+                                  "val": {"k": "DebugInfoRef", "u": tu + 1, "e": t}}));
+            }
+            if rng.chance(1, 5) {
+                calls.push(json!({"op": "sibling", "u": u + 1, "e": e, "v": true}));
+            }
+            if rng.chance(1, 25) {
+                calls.push(json!({"op": "delete", "u": u + 1, "e": e, "name": "DW_AT_type"}));
+            }
+        }
+    }
+    // now and then an entry is removed again (references to it become unencodable)
+    if rng.chance(1, 4) {
+        let u = rng.below(nunits as u64) as usize;
+        if added[u].len() > 2 {
+            let e = added[u][rng.range(1, added[u].len() as u64 - 1) as usize];
+            let p = if rng.chance(1, 2) { 1 } else { *rng.pick(&added[u]) };
+            calls.push(json!({"op": "delete_child", "u": u + 1, "p": p, "e": e}));
+        }
+    }
+    json!({"sys": "unitw", "be": rng.chance(1, 4), "mode": if rng.chance(1, 3) { "incremental" } else { "dwarf" },
+           "units": units, "calls": calls})
+}
+
+fn record(out: &str, a: &Args) {
+    let mut rng = Rng::new(a.num("--seed", 1));
+    let n = a.num("--n", 4);
+    let lo = a.num("--min", 50);
+    let hi = a.num("--max", 200);
+    let mut evs: Vec<Value> = Vec::new();
+    for _ in 0..n {
+        let case = random_script(&mut rng, lo, hi);
+        let o = guarded(|| replay(&case));
+        evs.push(json!({"ev": "Units", "units": case["units"], "mode": case["mode"]}));
+        for c in case["calls"].as_array().unwrap() {
+            evs.push(json!({"ev": "Call", "c": c}));
+        }
+        let obs = if o.get("outcome").is_some() {
+            json!({"ok": false, "stage": o["outcome"], "loc": o["loc"], "msg": o["msg"]})
+        } else if o["ok"].as_bool() == Some(true) {
+            json!({"ok": true, "units": o["units"]})
+        } else {
+            json!({"ok": false, "stage": o["stage"], "err": o["err"]})
+        };
+        evs.push(json!({"ev": "Result", "be": case["be"], "mode": case["mode"], "obs": obs}));
+    }
+    write_lines(out, &evs);
 }
 
 fn main() {
